@@ -261,7 +261,19 @@ def p_rules(p: Project, rep: Report):
     tail_atoms = [a for a in PT.atoms_of(fpaths) if _re.fullmatch(r"bool\(self\._groomstring\(.*(\['tail'\]|group\('tail'\))\)\)", a)]
     if not calls_fm:
         raise AnalysisError("P-R4: feed() never calls _feedmatch")
-    if not tail_atoms:
+    # `<groomed tail> is None` says the same as `not <groomed tail>`: _groomstring returns the stripped text or None,
+    # never an empty string (X-R4 _groomstring:strip-or-None)
+    none_atoms = [a for a in PT.atoms_of(fpaths) if _re.fullmatch(r"self\._groomstring\(.*(\['tail'\]|group\('tail'\))\) is None", a)]
+    if not tail_atoms and none_atoms:
+        goal = PT.atom(none_atoms[0], True)
+        ok = True
+        for cn in calls_fm:
+            for pth in fpaths:
+                cb = pth.conds_before(cn.id)
+                if cb is not None and PT.implies(cb, goal) is False:
+                    ok = False
+        rep.check("P-R4", "feed:non-blank-tail-raises", ok, "a path hands the match to _feedmatch although its tail text is not blank: text after an element's end tag is silently dropped" if not ok else "", ploc(p, feed0))
+    elif not tail_atoms:
         rep.check("P-R4", "feed:non-blank-tail-raises", False, "the tail group of a match is never tested: text after an element's end tag is silently dropped", ploc(p, feed0))
     else:
         goal = PT.atom(tail_atoms[0], False)
@@ -448,6 +460,28 @@ def x_rules(p: Project, rep: Report):
                 ok_close = group_ref(vasts[2]) == "closetag"
                 tv_ = vasts[1]
                 ok_text = isinstance(tv_, ast.BoolOp) and isinstance(tv_.op, ast.Or) and len(tv_.values) == 2 and group_ref(tv_.values[0]) == "cdata" and isinstance(tv_.values[1], ast.Call) and text(tv_.values[1].func) == "self._groomstring" and len(tv_.values[1].args) == 1 and group_ref(tv_.values[1].args[0]) == "text"
+                if not ok_text:
+                    # the decision written as a branch: on this path the data is the cdata group where that group was
+                    # tested true, the trimmed text group where it was tested false
+                    facts_ = PT.simple_conds(pth.conds_before(cn.id) or [])
+                    def _cdata_truth(a_, w_):
+                        """truth of the cdata group that the fact (atom a_ has value w_) states, or None"""
+                        try:
+                            e_ = ast.parse(a_, mode="eval").body
+                        except SyntaxError:
+                            return None
+                        if isinstance(e_, ast.Call) and isinstance(e_.func, ast.Name) and e_.func.id == "bool" and len(e_.args) == 1 and group_ref(e_.args[0]) == "cdata":
+                            return w_
+                        if isinstance(e_, ast.Compare) and len(e_.ops) == 1 and isinstance(e_.ops[0], ast.Is) and group_ref(e_.left) == "cdata" and isinstance(e_.comparators[0], ast.Constant) and e_.comparators[0].value is None and w_ is True:
+                            return False
+                        return None
+
+                    truths_ = {_cdata_truth(a_, w_) for a_, w_ in facts_.items()}
+                    cd_true, cd_false = True in truths_, False in truths_
+                    if group_ref(tv_) == "cdata" and cd_true:
+                        ok_text = True
+                    elif isinstance(tv_, ast.Call) and text(tv_.func) == "self._groomstring" and len(tv_.args) == 1 and group_ref(tv_.args[0]) == "text" and cd_false:
+                        ok_text = True
                 rep.check("X-R4", "feed:passes-own-groups", bool(ok_tag and ok_close), f"feed() hands tag={vals[0][:40]}, closetag={vals[2][:40]} to _feedmatch; expected the match's own 'tag' and 'closetag' groups" if not (ok_tag and ok_close) else "", ploc(p, feed0))
                 rep.check("X-R4", "feed:text-trimmed-cdata-verbatim", bool(ok_text), f"the data handed on is {vals[1][:80]}; expected <cdata group, verbatim> or _groomstring(<text group>)" if not ok_text else "", ploc(p, feed0))
     if not seen_call:
